@@ -14,7 +14,8 @@ ENGINES = {
 PROP = {
     "engines": ["tuple"],
     "lean_modules": ["AxVerif.Model.Tuple", "AxVerif.Model.Snapshot", "AxVerif.Model.Bytes", "AxVerif.Lemmas.Tuple",
-                     "AxVerif.Lemmas.Bytes"],
+                     "AxVerif.Lemmas.TupleBase", "AxVerif.Lemmas.TupleMain", "AxVerif.Lemmas.TupleDelta",
+                     "AxVerif.Lemmas.TupleChain", "AxVerif.Lemmas.TupleOps", "AxVerif.Lemmas.Bytes"],
     "rule": "case = one operation sequence on one row: build (1-3 key columns, 0-12 value columns over "
             "{Bool,Int,BigInt,UInt,BigUInt,Float,Double,Blob}, NULLs), up to 8 updates touching any column subset "
             "(value<->NULL, texts of length 0/1/9/63/64/200-500/8191-8193), optional delete, optional vacuum at every "
